@@ -413,6 +413,7 @@ class PathSum(object):
         self.inline_pred = inline_pred
         self.max_paths = max_paths
         self.implicit = implicit_raises
+        self.unbound_raises = True
         self.max_depth = max_depth
         self.unroll = unroll
         self.uid = itertools.count(1)
@@ -1191,7 +1192,16 @@ class PathSum(object):
         if isinstance(e, ast.Constant):
             return [(st, const(e.value))]
         if isinstance(e, ast.Name):
-            return [(st, self.name(e.id, st, fi, e))]
+            v = self.name(e.id, st, fi, e)
+            if v[0] == 'unbound' and isinstance(e.ctx, ast.Load) and \
+                    st.outcome is None and self.unbound_raises:
+                # reading a local no statement on the path has bound
+                st.outcome = ('raise', ('call', ('builtin',
+                                                 'UnboundLocalError'),
+                                        (const(e.id),), (), next(self.uid)),
+                              e)
+                return [(st, BOT)]
+            return [(st, v)]
         if isinstance(e, ast.Attribute):
             out = []
             for s, b in self.ev(e.value, st, fi):
